@@ -650,11 +650,12 @@ Definition w_k6_q := mkQ w_base_pat None (RPlain [EProp "a" "u"; EVar "b"] false
 Lemma gql_limit_before_order_pre_refuted_l : exists st q,
   k6_gql_limit_first_pre LGql q = true /\ plan_rows st (gql_plan_pre_of q) <> answer st q /\ plan_rows st (gql_plan_of q) = answer st q.
 Proof. exists w_small_st, w_k6_q. split; [reflexivity|]. split; [intro H; vm_compute in H; discriminate H|reflexivity]. Qed.
-(** still open: GQL applies SKIP/LIMIT below RETURN, i.e. before DISTINCT *)
+(** repaired by cc624f1: GQL applied SKIP/LIMIT below RETURN, i.e. before DISTINCT *)
 Definition w_k6d_q := mkQ w_base_pat None (RPlain [EVar "a"] true) [] None (Some 2%nat).
-Lemma gql_limit_before_distinct_refuted_l : exists st q,
-  k6_gql_limit_first LGql q = true /\ plan_rows st (gql_plan_of q) <> answer st q /\ plan_rows st (cypher_plan_of q) = answer st q.
-Proof. exists w_small_st, w_k6d_q. split; [reflexivity|]. split; [intro H; vm_compute in H; discriminate H|reflexivity]. Qed.
+Lemma gql_limit_before_distinct_pre_refuted_l : exists st q,
+  k6_gql_limit_first LGql q = true /\ plan_rows st (gql_plan_pre_distinct_of q) <> answer st q /\
+  plan_rows st (gql_plan_of q) = answer st q /\ plan_rows st (cypher_plan_of q) = answer st q.
+Proof. exists w_small_st, w_k6d_q. split; [reflexivity|]. split; [intro H; vm_compute in H; discriminate H|]. split; reflexivity. Qed.
 
 Definition w_k7_q := q_plain (mkPat (mkNP "a" ["A"; "B"]) []) [EVar "a"].
 Lemma multi_label_refuted_l : exists st q,
@@ -1196,7 +1197,7 @@ Qed.
 
 (** GQL builds the same plan when there is nothing to misplace *)
 Lemma gql_plan_plain q items d : q_ret q = RPlain items d -> q_order q = [] -> q_skip q = None -> q_limit q = None -> gql_plan_of q = cypher_plan_of q.
-Proof. intros Hr Ho Hs Hl. unfold gql_plan_of, cypher_plan_of. rewrite Hr, Ho, Hs, Hl. reflexivity. Qed.
+Proof. intros Hr Ho Hs Hl. unfold gql_plan_of, cypher_plan_of. rewrite Hr, Ho, Hs, Hl. destruct d; reflexivity. Qed.
 
 (** * RETURN over rows whose cells hold ids in any vector kind (entity cells, or the generic Int64
     cells that SKIP / LIMIT / ORDER BY leave behind) *)
